@@ -71,7 +71,7 @@ run("own_all", [(V, PA, "      const size_type n = size();\n      for (size_type
 # more spellings of the classes the listed ones reveal
 run("ren_AT", [(F, TR, TR.replace("AT[j][i]", "At[j][i]")), (F, "Dune::FieldMatrix<K, COLS, ROWS> AT;", "Dune::FieldMatrix<K, COLS, ROWS> At;"), (F, "      return AT;\n    }\n\n    //! vector space addition -- two-argument version\n    template <class OtherScalar>\n    friend auto operator+ ( const FieldMatrix& matrixA,\n                            const FieldMatrix<OtherScalar,ROWS,COLS>& matrixB)\n    {\n      FieldMatrix<typename PromotionTraits<K,OtherScalar>::PromotedType,ROWS,COLS> result;", "      return At;\n    }\n\n    //! vector space addition -- two-argument version\n    template <class OtherScalar>\n    friend auto operator+ ( const FieldMatrix& matrixA,\n                            const FieldMatrix<OtherScalar,ROWS,COLS>& matrixB)\n    {\n      FieldMatrix<typename PromotionTraits<K,OtherScalar>::PromotedType,ROWS,COLS> result;")], "POS")
 run("rangefor_autoref", [(V, "      for (size_type i=0; i<size(); i++)\n        (*this)[i] *= k;", "      for (auto&& e : *this)\n        e *= k;")], "POS")
-run("plus_respelled", [(V, "      derived_type z = asImp();\n      return (z+=b);", "      derived_type sum(asImp());\n      sum += b;\n      return sum;")], "POS")
+run("plus_respelled", [(V, "      AutonomousValue<V> z = asImp();\n      return (z+=b);", "      AutonomousValue<V> sum(asImp());\n      sum += b;\n      return sum;")], "POS")
 # ---- NEG: must stay loud / differ
 run("neg_hoist_wrong", [(V, PA, "      const size_type n = size()-1;\n      for (size_type i=0; i<n; i++)\n        (*this)[i] += x[i];")], "NEG")
 run("neg_hoist_other", [(M, UMV, "      const size_type nr = cols();\n      for (size_type i=0; i<nr; ++i)\n        for (size_type j=0; j<cols(); j++)\n          yy[i] += (*this)[i][j] * xx[j];")], "NEG")
@@ -86,8 +86,9 @@ run("neg_cmp_drop", [(M, UMV, UMV.replace("yy[i] += (*this)[i][j] * xx[j]", "yy[
 run("neg_rangefor_val", [(V, "      for (size_type i=0; i<size(); i++)\n        (*this)[i] *= k;", "      for (auto e : *this)\n        e *= k;")], "NEG")
 run("neg_rangefor_x", [(V, "      for (size_type i=0; i<size(); i++)\n        (*this)[i] *= k;", "      for (auto& e : x)\n        e *= k;")], "NEG")
 run("neg_iter_end", [(V, "      for (size_type i=0; i<size(); i++)\n        (*this)[i] *= k;", "      for (auto&& e : *this)\n        e *= k;"), (V, "      return Iterator(*this,size());", "      return Iterator(*this,size()-1);")], "NEG")
-run("neg_plus_minus", [(V, "      derived_type z = asImp();\n      return (z+=b);", "      derived_type z = asImp();\n      return (z-=b);")], "NEG")
-run("neg_plus_nocopy", [(V, "      derived_type z = asImp();\n      return (z+=b);", "      derived_type& z = asImp();\n      return (z+=b);")], "NEG")
+run("neg_plus_minus", [(V, "      AutonomousValue<V> z = asImp();\n      return (z+=b);", "      AutonomousValue<V> z = asImp();\n      return (z-=b);")], "NEG")
+run("neg_plus_nocopy", [(V, "      AutonomousValue<V> z = asImp();\n      return (z+=b);", "      derived_type& z = asImp();\n      return (z+=b);")], "NEG")
+run("neg_plus_sametype", [(V, "      AutonomousValue<V> z = asImp();\n      return (z+=b);", "      derived_type z = asImp();\n      return (z+=b);")], "NEG")   # the pre-repair form (2228ad4^)
 print("--- helper class")
 def patched(name, patch, more, expect):
     T = run(name, [], None)
